@@ -373,7 +373,9 @@ def parse_tr(line):
 
 
 def run_harness(exe, domain, hf, hists, shard=0):
-    p = subprocess.run([exe, domain, hf], stdout=subprocess.PIPE, text=True, timeout=7200)
+    # a handful of histories (shrinking, replay): a case that does not return is given up after 45 s
+    env = dict(os.environ, SV_WATCHDOG_SECS="45") if len(hists) <= 3 else None
+    p = subprocess.run([exe, domain, hf], stdout=subprocess.PIPE, text=True, timeout=7200, env=env)
     if p.returncode == 0:
         lines = p.stdout.rstrip("\n").split("\n") if hists else []
         if len(lines) == len(hists):
@@ -919,7 +921,8 @@ def shrink_world(pid, hist, fixed=True, domain="world"):
     cur = list(hist)
     n = 2
     budget = 120
-    while len(cur) >= 2 and budget > 0:
+    deadline = time.time() + 900          # an implementation that hangs costs a watchdog period per attempt
+    while len(cur) >= 2 and budget > 0 and time.time() < deadline:
         chunk = max(1, len(cur) // n)
         reduced = False
         for i in range(0, len(cur), chunk):
@@ -928,7 +931,7 @@ def shrink_world(pid, hist, fixed=True, domain="world"):
             if cand and fails(cand):
                 cur, n, reduced = cand, max(n - 1, 2), True
                 break
-            if budget <= 0:
+            if budget <= 0 or time.time() > deadline:
                 break
         if not reduced:
             if chunk == 1:
